@@ -257,6 +257,11 @@ class AEval:
 
     def call_path(self, path, local, args, depth):
         m = path.split("::")[-1]
+        import re as _re
+        if _re.fullmatch(r"core::convert::num::<impl core::convert::From<u(8|16|32)> for (u16|u32|u64|u128|usize)>::from", path) and len(args) == 1:
+            return args[0]   # lossless widening
+        if path == "<T as core::convert::Into<U>>::into" and len(args) == 1 and args[0][0] in ("int", "sym", "be", "shl"):
+            return args[0]
         if path.startswith("core::num::<impl u") and m in ("from_be_bytes", "from_le_bytes") and len(args) == 1 and args[0][0] == "array":
             xs = list(args[0][1])
             if m == "from_le_bytes":
@@ -308,7 +313,8 @@ class AEval:
             if name in ("ok_or", "ok_or_else") and is_opt:
                 if good:
                     return ("enum", self.OK, [inner])
-                return ("enum", self.ERR, [ANY])
+                ev_ = self.ev(args[0], env, depth)
+                return ("enum", self.ERR, [self.apply(ev_, [], depth) if name == "ok_or_else" else ev_])
             if name == "filter" and is_opt:
                 if not good:
                     return v
@@ -323,6 +329,14 @@ class AEval:
             if name in ("copied", "cloned", "as_ref", "as_deref"):
                 return v
             raise Unknown("method " + p)
+        if p in ("core::bool::<impl bool>::then", "core::bool::<impl bool>::then_some"):
+            c = self.ev(e["recv"], env, depth)
+            if c[0] != "bool":
+                raise Unknown("bool::then on an undetermined condition")
+            if not c[1]:
+                return ("enum", self.NONE_, [])
+            a0 = self.ev(e["args"][0], env, depth)
+            return ("enum", self.SOME, [self.apply(a0, [], depth) if p.endswith("::then") else a0])
         if p.startswith("core::slice::<impl [T]>::") or p.startswith("core::array::<impl [T; N]>::"):
             v = self.ev(e["recv"], env, depth)
             if v[0] != "array":
@@ -592,6 +606,27 @@ class AEval:
                     return ("int", x << y)
                 if op == ">>":
                     return ("int", x >> y)
+            # big-endian assembly of opaque bytes by hand: (r0 << 24) | (r1 << 16) | (r2 << 8) | r3
+            def terms(v):
+                if v[0] == "sym":
+                    return {v: 0}
+                if v[0] == "shl":
+                    return dict(v[1])
+                if v[0] == "be":
+                    n_ = len(v[1])
+                    return {x: 8 * (n_ - 1 - i) for i, x in enumerate(v[1])}
+                return None
+            if op == "<<" and b[0] == "int" and terms(a) is not None:
+                return ("shl", tuple(sorted(((t_, s_ + b[1]) for t_, s_ in terms(a).items()), key=str)))
+            if op in ("|", "+", "^") and terms(a) is not None and terms(b) is not None:
+                ta, tb = terms(a), terms(b)
+                if not (set(ta) & set(tb)) and len(set(ta.values()) | set(tb.values())) == len(ta) + len(tb):
+                    allt = dict(ta)
+                    allt.update(tb)
+                    by = sorted(allt.items(), key=lambda kv: -kv[1])
+                    if [s_ for _, s_ in by] == [8 * i for i in range(len(by) - 1, -1, -1)]:
+                        return ("be", [t_ for t_, _ in by])
+                    return ("shl", tuple(sorted(allt.items(), key=str)))
             raise Unknown("binary %s on %s,%s" % (op, a[0], b[0]))
         if k == "cast":
             v = self.ev(e["x"], env, depth)
@@ -601,6 +636,8 @@ class AEval:
                 bits = {"u8": 8, "u16": 16, "u32": 32, "u64": 64, "usize": 64}.get(e["ty"])
                 if bits:
                     return ("int", v[1] & ((1 << bits) - 1))
+            if v[0] == "sym" and e.get("ty") in ("u16", "u32", "u64", "usize") and (strip(e["x"]).get("ty") in ("u8", "&u8")):
+                return v   # widening of an opaque byte
             raise Unknown("cast")
         if k == "block":
             env2 = dict(env)
